@@ -9,7 +9,7 @@ From the translator's function table (meta.json) and the generated type definiti
 Everything is derived from the code's own public API, so a renamed / added / removed method shows up as a change of
 the catalogue rather than being silently skipped.
 """
-import json, re, sys
+import json, os, re, sys
 
 
 def parse_inductives(text):
@@ -186,6 +186,37 @@ def main():
     v.append('  end.')
     v.append('')
     open(sys.argv[3], 'w').write('\n'.join(v) + '\n') if _changed(sys.argv[3], '\n'.join(v) + '\n') else None
+
+    # =================================================================== GenLens.v
+    L = ['(* generated by tools/gen_api.py: one lens per shadowed register, looked up by register address *)',
+         'Require Import BMA.lib.Base BMA.gen.GenTypes BMA.gen.GenPure BMA.gen.GenMeta.', 'Open Scope N_scope.', '',
+         ]
+    records = {}
+    for m in re.finditer(r'Record (\w+) : Type := mk_\w+ \{([^}]*)\}', open(sys.argv[2]).read()):
+        records[m.group(1)] = [(f.split(':')[0].strip(), f.split(':')[1].strip()) for f in m.group(2).split(';') if ':' in f]
+    cfg_fields = records['Config']
+    pats = []
+    for fname, fty in cfg_fields:
+        sub = records[fty]
+        pats.append('[' + ' '.join('s_%s_%s' % (fname[len('Config_'):], sf[len(fty) + 1:]) for sf, _ in sub) + ']')
+    L.append('(* fully destructure a Config into named byte variables (names never clash with the projections) *)')
+    L.append('Ltac destruct_cfg d := destruct d as [%s].' % ' '.join(pats))
+    L.append('')
+    for leaf in meta['leaves']:
+        lb = leaf['label']
+        L.append('Lemma eta_%s : forall d, put_%s (get_%s d) d = d. Proof. intro d. destruct_cfg d. reflexivity. Qed.' % (lb, lb, lb))
+    L.append('')
+    L.append('(* continuation-passing lookup: k get put eta *)')
+    L.append('Ltac lens_of a k :=\n  lazymatch a with')
+    for leaf in meta['leaves']:
+        lb = leaf['label']
+        L.append('  | %d => k get_%s put_%s eta_%s' % (leaf['addr'], lb, lb, lb))
+    L.append('  end.')
+    L.append('Definition shadow_addrs : list N := [%s].' % '; '.join(str(l['addr']) for l in meta['leaves']))
+    txt = '\n'.join(L) + '\n'
+    lens_path = os.path.join(os.path.dirname(sys.argv[3]), 'GenLens.v')
+    if _changed(lens_path, txt):
+        open(lens_path, 'w').write(txt)
 
     # =================================================================== dispatch_gen.rs
     r = ['// generated by tools/gen_api.py — do not edit', '']
